@@ -317,8 +317,12 @@ func (mi *MessageInfo) unmarshalPointerLazy(b []byte, p pointer, groupTag protow
 					}
 				case lazyFields[f] == lazyUnmarshalLater:
 					// This field will be unmarshaled in a separate pass below.
-					// Skip over it here.
-					discardUnknown = true
+					// Skip over it here. An occurrence with a wire type the
+					// field does not accept is skipped by that pass as well,
+					// so it has to be kept as an unknown field now.
+					if wtyp == protowire.Type(f.wiretag&7) {
+						discardUnknown = true
+					}
 					break Field
 				default:
 					// Eagerly unmarshal the field.
